@@ -497,7 +497,7 @@ def nary_family(xs, wraps, arities=(3, 4)):
         for i in range(n):
             for j in range(n):
                 for k in range(n):
-                    if 3 in arities and len(set([i, j, k])) == 3:
+                    if 3 in arities and (len(set([i, j, k])) == 3 or (i == j and j != k and (i + k) % 3 == 0)):
                         body = (o, xs[i], xs[j], xs[k])
                         for w in wraps:
                             out.append(w(body))
@@ -524,6 +524,34 @@ def ctl_nary():
     xs = [P, Q, ('E', ('G', P)), ('A', ('X', Q)), ('E', ('F', Q)), ('A', ('U', P, Q)), ('not', ('E', ('X', P)))]
     wraps = [lambda b: b, lambda b: ('E', ('X', b)), lambda b: ('A', ('G', b)), lambda b: ('E', ('U', b, Q)), lambda b: ('not', b)]
     return nary_family(xs, wraps)
+
+
+def ctl_twins():
+    """CTL formulas that contain BOTH a formula and the form the checker rewrites it to (AF p with
+    not EG not p, EF p with E(true U p), p --> q with not p or q, ...): memo entries stored under one
+    key and looked up under the other show up here."""
+    def n(x):
+        return ('not', x)
+    tw = [
+        (('A', ('F', P)), n(('E', ('G', n(P))))),
+        (('E', ('F', P)), ('E', ('U', TRUE, P))),
+        (('A', ('G', P)), n(('E', ('U', TRUE, n(P))))),
+        (('A', ('X', P)), n(('E', ('X', n(P))))),
+        (('A', ('U', P, Q)), n(('or', ('E', ('U', n(Q), n(('or', P, Q)))), ('E', ('G', n(Q)))))),
+        (('A', ('R', P, Q)), n(('E', ('U', n(P), n(Q))))),
+        (('E', ('R', P, Q)), ('or', ('E', ('U', Q, n(('or', n(P), n(Q))))), ('E', ('G', Q)))),
+        (('and', P, ('E', ('X', Q))), n(('or', n(P), n(('E', ('X', Q)))))),
+        (('imp', ('E', ('G', P)), Q), ('or', n(('E', ('G', P))), Q)),
+        (FALSE, n(TRUE)),
+    ]
+    out = []
+    wraps = [lambda b: b, lambda b: ('E', ('X', b)), lambda b: ('A', ('G', b)), lambda b: n(('E', ('F', b)))]
+    for x, t in tw:
+        for body in (('and', x, n(t)), ('or', n(x), t), ('and', t, n(x)), ('and', ('or', x, Q), t), ('imp', t, ('and', x, P)),
+                     ('or', x, t, Q), ('and', t, x)):
+            for w in wraps:
+                out.append(w(body))
+    return out
 
 
 def ctls_siblings():
